@@ -8,6 +8,7 @@
 //  (4) concrete extremal runs: round trip, additivity, pointwise product -> negacyclic convolution;
 //  (5) module level: vec_znx_dft -> vec_znx_idft / _tmp_a on NTT120 modules over sizes, strides and
 //      an int64 alphabet incl. INT64_MIN/MAX.
+#include "../harness/giant.hpp"
 #include "../harness/apiops.hpp"
 #include "../harness/envelope.hpp"
 using namespace vf;
@@ -231,12 +232,15 @@ int main(int argc, char** argv) {
     const It& it = items[i];
     switch (it.part) { case 1: part_model(ctx, it.n, it.inv); break; case 2: part_basis(ctx, it.n, it.i0, it.i1); break; case 3: part_concrete(ctx, it.n); break; case 4: part_module(ctx, it.n); break; }
   });
+  const bool giant = (th || getenv("VERIF_GIANT")) && giant_memory_ok();
+  if (giant) ctx.parallel(2, [&](uint64_t i) { giant_dft_roundtrip(ctx, NTT120, (int)i); }, "giant vectors (> 4 GiB)");
   ctx.assumptions = {"(1)+(2)+(3) give: for every lane content no word wraps, hence every stage is the linear map modulo q certified by the table facts, hence the transform is the linear map determined by its action on the basis, which (3) shows to be evaluation at the primitive 2n-th roots",
                      "NTT120 dft/idft exist only when avx2 is reported; default 30-bit primes"};
   Json ex = Json::obj();
   ex.set("basis_complete_up_to_n", basis_max);
+  ex.set("giant_vectors", giant ? "dft -> idft / idft_tmp_a on NTT120 DFT vectors of 4 GiB + 2 MiB (2049 limbs at N = 65536)" : (th ? "skipped: less than 20 GiB of memory available" : "thorough tier only"));
   return ctx.finish("exploration",
                     "envelope model and table facts for n=2^0..2^16 both directions; every basis vector of every n <= basis bound through ntt and every unit vector through intt (64 per case id); 6 extremal lane patterns x 6 for additivity / convolution; "
-                    "module-level dft->idft(_tmp_a) over (a_size,dft_size,out_size) in {0..3}^3 x strides (N, N+1, N+3, and for the read-only source also N-1, N/2, 0) x int64 alphabet; distinct = distinct case ids",
+                    "module-level dft->idft(_tmp_a) over (a_size,dft_size,out_size) in {0..3}^3 x strides (N, N+1, N+3, and for the read-only source also N-1, N/2, 0) x int64 alphabet; thorough: dft -> idft / idft_tmp_a on DFT vectors of more than 4 GiB (2049 limbs at N = 65536); distinct = distinct case ids",
                     true, ex);
 }
